@@ -1,4 +1,4 @@
-from . import cycle, sidecar, proxy, store, k8s, discovery
+from . import cycle, sidecar, proxy, store, k8s, discovery, explore
 CHECKS = {}
 for p in cycle.PROPS:
     CHECKS[p] = cycle.check
@@ -9,3 +9,4 @@ CHECKS['C13'] = proxy.check
 CHECKS['C09'] = store.check
 CHECKS['C18'] = k8s.check
 CHECKS['C17'] = discovery.check
+CHECKS['C20'] = explore.check
